@@ -5,12 +5,18 @@ import MuscleModel.Conc.ProofsRCBasic
 namespace Muscle.Conc.RC
 open Muscle.Conc Muscle.Conc.Pool
 
+/-- pending actions the invariant says something about individually -/
+def Special : Act → Prop
+  | .delSlab _ => True
+  | .incOld _ _ => True
+  | _ => False
+
 /-- a step that touches only thread `t`'s record and the global slots -/
-theorem inv_local {c : Cfg} {t : Nat} {th th' : Th} {g' : List (Option Oid)} (h : Inv c) (ht : c.ths[t]? = some th)
+theorem inv_local {c : Cfg} {t : Nat} {th th' : Th} {g' : List Slot} (h : Inv c) (ht : c.ths[t]? = some th)
     (hcnt : ∀ o, th.refs o + cntS c.glob o = th'.refs o + cntS g' o)
     (hraw : th'.raw = th.raw)
     (hrel : ∀ o, cntRel th'.todo o = cntRel th.todo o)
-    (hdel : ∀ s, Act.delSlab s ∈ th'.todo → Act.delSlab s ∈ th.todo) :
+    (hsub : ∀ x, Special x → x ∈ th'.todo → x ∈ th.todo) :
     Inv { c with glob := g', ths := c.ths.set t th' } := by
   have := inv_update (c1 := { c with glob := g' }) (th' := th') h ht rfl h.pool
     (by intro o; have := hcnt o; simp only; omega)
@@ -22,56 +28,85 @@ theorem inv_local {c : Cfg} {t : Nat} {th th' : Th} {g' : List (Option Oid)} (h 
     h.acq
     (by intro o; have := hrel o; simp only; omega)
     h.heapFresh h.heapMgr h.heapAcq h.nodeMgr h.fresh
-    (fun s hs => h.del t th s ht (hdel s hs))
+    (fun s hs => h.del t th s ht (hsub _ trivial hs))
     (fun _ hs => hs)
+    h.linksND h.linkAlive
+    (fun a n hm => h.noOld t th a n ht (hsub _ trivial hm))
   exact this
 
-theorem cntDec_decOld (x : Option Oid) (o : Oid) : cntDec (decOld x) o = if x = some o then 1 else 0 := by
+theorem cntDec_decOld (x : Slot) (o : Oid) : cntDec (decOld x) o = if x = some (o, true) then 1 else 0 := by
+  unfold decOld
+  split
+  · rename_i o'; simp [cntDec]
+  · rename_i hx
+    have : ¬ x = some (o, true) := fun e => hx o e
+    simp [cntDec, this]
+
+theorem cntRel_decOld (x : Slot) (o : Oid) : cntRel (decOld x) o = 0 := by
+  unfold decOld; split <;> simp [cntRel]
+
+theorem special_not_mem_decOld (x : Slot) (a : Act) (ha : Special a) : a ∉ decOld x := by
+  unfold decOld; split
+  · intro hm; simp at hm; subst hm; exact ha
+  · simp
+
+theorem cntDec_decNext (x : Option Oid) (o : Oid) : cntDec (decNext x) o = if x = some o then 1 else 0 := by
+  cases x <;> simp [decNext, cntDec]
+
+theorem cntRel_decNext (x : Option Oid) (o : Oid) : cntRel (decNext x) o = 0 := by
+  cases x <;> simp [decNext, cntRel]
+
+theorem special_not_mem_decNext (x : Option Oid) (a : Act) (ha : Special a) : a ∉ decNext x := by
   cases x with
-  | none => simp [decOld, cntDec]
-  | some y => simp [decOld, cntDec]
-
-theorem cntRel_decOld (x : Option Oid) (o : Oid) : cntRel (decOld x) o = 0 := by
-  cases x <;> simp [decOld, cntRel]
-
-theorem delSlab_not_mem_decOld (x : Option Oid) (s : Slab) : Act.delSlab s ∉ decOld x := by
-  cases x <;> simp [decOld]
+  | none => simp [decNext]
+  | some o => intro hm; simp [decNext] at hm; subst hm; exact ha
 
 /-- `slotOf` in terms of `getElem?` for an index in range -/
 theorem slotOf_lt {th : Th} {a : Nat} (ha : a < th.slots.length) : th.slots[a]? = some (slotOf th a) := by
   simp [slotOf, List.getElem?_eq_getElem ha]
 
-/-- clearing slot `a` and queueing the decrement for its old content is reference-neutral -/
-theorem refs_clear {th : Th} {a : Nat} (ha : a < th.slots.length) (pre post : List Act) (rest : List Op) (o : Oid)
-    (hpre : cntDec pre o = 0) (hpost : cntDec post o = 0) (htodo : th.todo = []) :
-    ({ th with slots := th.slots.set a none, todo := pre ++ (decOld (slotOf th a) ++ post), prog := rest } : Th).refs o = th.refs o := by
-  have := cntS_set (y := none) (o := o) (slotOf_lt ha)
+/-- actions that are neither a pending decrement, nor a pending release, nor special -/
+def Neutral (l : List Act) : Prop := (∀ o, cntDec l o = 0) ∧ (∀ o, cntRel l o = 0) ∧ ∀ a, Special a → a ∉ l
+
+theorem neutral_nil : Neutral [] := ⟨fun _ => rfl, fun _ => rfl, fun _ _ => by simp⟩
+
+theorem neutral_single {a : Act} (h1 : ∀ o, cntDec [a] o = 0) (h2 : ∀ o, cntRel [a] o = 0) (h3 : ¬ Special a) : Neutral [a] :=
+  ⟨h1, h2, fun b hb hm => by simp at hm; subst hm; exact h3 hb⟩
+
+theorem neutral_obtain : Neutral [.obtain] := neutral_single (fun _ => rfl) (fun _ => rfl) id
+theorem neutral_incRaw (a : Nat) : Neutral [.incRaw a] := neutral_single (fun _ => rfl) (fun _ => rfl) id
+theorem neutral_incSlot (a b : Nat) : Neutral [.incSlot a b] := neutral_single (fun _ => rfl) (fun _ => rfl) id
+theorem neutral_incTmp (b : Nat) : Neutral [.incTmp b] := neutral_single (fun _ => rfl) (fun _ => rfl) id
+theorem neutral_incSame (a : Nat) : Neutral [.incSame a] := neutral_single (fun _ => rfl) (fun _ => rfl) id
+theorem neutral_incNext (a b : Nat) : Neutral [.incNext a b] := neutral_single (fun _ => rfl) (fun _ => rfl) id
+theorem neutral_incPop (a : Nat) : Neutral [.incPop a] := neutral_single (fun _ => rfl) (fun _ => rfl) id
+theorem neutral_unlocked : Neutral [.unlocked] := neutral_single (fun _ => rfl) (fun _ => rfl) id
+
+theorem neutral_append {l r : List Act} (hl : Neutral l) (hr : Neutral r) : Neutral (l ++ r) :=
+  ⟨fun o => by rw [cntDec_append, hl.1, hr.1], fun o => by rw [cntRel_append, hl.2.1, hr.2.1],
+   fun a ha hm => by rcases List.mem_append.mp hm with h | h; exact hl.2.2 a ha h; exact hr.2.2 a ha h⟩
+
+/-- replacing slot `a` by a non-counting value (or NULL) and queueing the decrement for its old content is reference-neutral -/
+theorem refs_clear {th : Th} {a : Nat} (ha : a < th.slots.length) (v : Slot) (hv : ∀ o, v ≠ some (o, true)) (pre post : List Act)
+    (rest : List Op) (o : Oid) (hpre : cntDec pre o = 0) (hpost : cntDec post o = 0) (htodo : th.todo = []) :
+    ({ th with slots := th.slots.set a v, todo := pre ++ (decOld (slotOf th a) ++ post), prog := rest } : Th).refs o = th.refs o := by
+  have := cntS_set (y := v) (o := o) (slotOf_lt ha)
   simp only [Th.refs, cntDec_append, cntDec_decOld, hpre, hpost, htodo, cntDec] at *
-  simp at this
+  simp [hv o] at this
   omega
 
-
-/-- actions that are neither a pending decrement, nor a pending release, nor a pending slab deletion -/
-def Neutral (l : List Act) : Prop := (∀ o, cntDec l o = 0) ∧ (∀ o, cntRel l o = 0) ∧ ∀ s, Act.delSlab s ∉ l
-
 theorem inv_clear {c : Cfg} {t : Nat} {th : Th} {a : Nat} (h : Inv c) (ht : c.ths[t]? = some th) (ha : a < th.slots.length)
-    (htodo : th.todo = []) (pre post : List Act) (rest : List Op) (hpre : Neutral pre) (hpost : Neutral post) :
-    Inv { c with ths := c.ths.set t { th with slots := th.slots.set a none, todo := pre ++ (decOld (slotOf th a) ++ post), prog := rest } } := by
+    (htodo : th.todo = []) (v : Slot) (hv : ∀ o, v ≠ some (o, true)) (pre post : List Act) (rest : List Op) (hpre : Neutral pre) (hpost : Neutral post) :
+    Inv { c with ths := c.ths.set t { th with slots := th.slots.set a v, todo := pre ++ (decOld (slotOf th a) ++ post), prog := rest } } := by
   refine inv_local (g' := c.glob) h ht ?_ rfl ?_ ?_
-  · intro o; rw [refs_clear ha pre post rest o (hpre.1 o) (hpost.1 o) htodo]
+  · intro o; rw [refs_clear ha v hv pre post rest o (hpre.1 o) (hpost.1 o) htodo]
   · intro o; simp [cntRel_append, cntRel_decOld, hpre.2.1 o, hpost.2.1 o, htodo, cntRel]
-  · intro s hs
+  · intro x hx hs
     simp only [List.mem_append] at hs
     rcases hs with hs | hs | hs
-    · exact absurd hs (hpre.2.2 s)
-    · exact absurd hs (delSlab_not_mem_decOld _ s)
-    · exact absurd hs (hpost.2.2 s)
-
-theorem neutral_nil : Neutral [] := ⟨fun _ => rfl, fun _ => rfl, fun _ => by simp⟩
-theorem neutral_obtain : Neutral [.obtain] := ⟨fun _ => rfl, fun _ => rfl, fun _ => by simp⟩
-theorem neutral_incRaw (a : Nat) : Neutral [.incRaw a] := ⟨fun _ => rfl, fun _ => rfl, fun _ => by simp⟩
-theorem neutral_incFrom (a b : Nat) : Neutral [.incFrom a b] := ⟨fun _ => rfl, fun _ => rfl, fun _ => by simp⟩
-theorem neutral_ccast (a b : Nat) : Neutral [.incTmp b, .incSwap a b] := ⟨fun _ => rfl, fun _ => rfl, fun _ => by simp⟩
+    · exact absurd hs (hpre.2.2 x hx)
+    · exact absurd hs (special_not_mem_decOld _ x hx)
+    · exact absurd hs (hpost.2.2 x hx)
 
 /-- only the program counter (and neutral pending actions) change -/
 theorem inv_todo {c : Cfg} {t : Nat} {th : Th} (h : Inv c) (ht : c.ths[t]? = some th) (htodo : th.todo = [])
@@ -80,13 +115,12 @@ theorem inv_todo {c : Cfg} {t : Nat} {th : Th} (h : Inv c) (ht : c.ths[t]? = som
   refine inv_local (g' := c.glob) h ht ?_ rfl ?_ ?_
   · intro o; simp [Th.refs, hn.1 o, htodo, cntDec]
   · intro o; simp [hn.2.1 o, htodo, cntRel]
-  · intro s hs; exact absurd hs (hn.2.2 s)
-
+  · intro x hx hs; exact absurd hs (hn.2.2 x hx)
 
 theorem inv_swap {c : Cfg} {t : Nat} {th : Th} {a b : Nat} (h : Inv c) (ht : c.ths[t]? = some th)
     (ha : a < th.slots.length) (hb : b < th.slots.length) (rest : List Op) :
     Inv { c with ths := c.ths.set t { th with slots := (th.slots.set a (slotOf th b)).set b (slotOf th a), prog := rest } } := by
-  refine inv_local (g' := c.glob) h ht ?_ rfl (fun _ => rfl) (fun _ hs => hs)
+  refine inv_local (g' := c.glob) h ht ?_ rfl (fun _ => rfl) (fun _ _ hs => hs)
   intro o
   have h1 := cntS_set (y := slotOf th b) (o := o) (slotOf_lt ha)
   have hb1 : (th.slots.set a (slotOf th b))[b]? = some (slotOf th b) := by
@@ -100,79 +134,48 @@ theorem inv_swap {c : Cfg} {t : Nat} {th : Th} {a b : Nat} (h : Inv c) (ht : c.t
 theorem inv_xchg {c : Cfg} {t : Nat} {th : Th} {a g : Nat} (h : Inv c) (ht : c.ths[t]? = some th)
     (ha : a < th.slots.length) (hg : g < c.glob.length) (rest : List Op) :
     Inv { c with glob := c.glob.set g (slotOf th a), ths := c.ths.set t { th with slots := th.slots.set a ((c.glob[g]?).join), prog := rest } } := by
-  refine inv_local h ht ?_ rfl (fun _ => rfl) (fun _ hs => hs)
+  refine inv_local h ht ?_ rfl (fun _ => rfl) (fun _ _ hs => hs)
   intro o
   have h1 := cntS_set (y := (c.glob[g]?).join) (o := o) (slotOf_lt ha)
   have hg1 : c.glob[g]? = some ((c.glob[g]?).join) := by simp [List.getElem?_eq_getElem hg]
   have h2 := cntS_set (y := slotOf th a) (o := o) hg1
   simp only [Th.refs]; omega
 
-theorem slot_refs_pos {c : Cfg} {t : Nat} {th : Th} {a : Nat} {o : Oid} (ht : c.ths[t]? = some th) (hs : slotOf th a = some o) :
+theorem slot_get {th : Th} {a : Nat} {v : Oid × Bool} (hs : slotOf th a = some v) : th.slots[a]? = some (some v) := by
+  unfold slotOf at hs
+  cases hx : th.slots[a]? with
+  | none => rw [hx] at hs; simp at hs
+  | some y => rw [hx] at hs; simp at hs; rw [hs]
+
+theorem slot_lt {th : Th} {a : Nat} {v : Oid × Bool} (hs : slotOf th a = some v) : a < th.slots.length := by
+  rcases List.getElem?_eq_some_iff.mp (slot_get hs) with ⟨hl, _⟩; exact hl
+
+theorem slot_refs_pos {c : Cfg} {t : Nat} {th : Th} {a : Nat} {o : Oid} (ht : c.ths[t]? = some th) (hs : slotOf th a = some (o, true)) :
     0 < refs c o := by
-  have h1 : th.slots[a]? = some (some o) := by
-    unfold slotOf at hs
-    cases hx : th.slots[a]? with
-    | none => rw [hx] at hs; simp at hs
-    | some y => rw [hx] at hs; simp at hs; rw [hs]
-  have := cntS_pos h1
+  have := cntS_pos (slot_get hs)
   have := th_refs_le ht o
   simp only [Th.refs] at *; omega
-
-theorem aliveN_setObj_same_alive (f : Oid → Obj) (o : Oid) (v : Obj) (hv : v.alive = (f o).alive) (x : Oid) :
-    aliveN (setObj f o v) x = aliveN f x := by
-  cases x with
-  | heap k => rfl
-  | node s i =>
-    by_cases hx : Oid.node s i = o
-    · subst hx; simp [aliveN, hv]
-    · simp [aliveN, setObj, hx]
 
 theorem aliveN_congr {f g : Oid → Obj} (h : ∀ x, (f x).alive = (g x).alive) (x : Oid) : aliveN f x = aliveN g x := by
   cases x with
   | heap k => rfl
   | node s i => simp [aliveN, h]
 
-theorem inv_write {c : Cfg} {t : Nat} {th : Th} {a : Nat} {o : Oid} (h : Inv c) (ht : c.ths[t]? = some th)
-    (hs : slotOf th a = some o) (rest : List Op) (v : Nat) :
-    Inv { c with obj := setObj c.obj o { c.obj o with val := v }, ths := c.ths.set t { th with prog := rest } } := by
-  have halive := h.alive o (slot_refs_pos ht hs)
-  have key : ∀ x, (setObj c.obj o { c.obj o with val := v } x).count = (c.obj x).count ∧
-      (setObj c.obj o { c.obj o with val := v } x).alive = (c.obj x).alive ∧
-      (setObj c.obj o { c.obj o with val := v } x).acq = (c.obj x).acq ∧
-      (setObj c.obj o { c.obj o with val := v } x).rel = (c.obj x).rel ∧
-      (setObj c.obj o { c.obj o with val := v } x).mgr = (c.obj x).mgr := by
-    intro x; by_cases hx : x = o
-    · subst hx; simp
-    · simp [setObj, hx]
-  refine inv_update (c1 := { c with obj := setObj c.obj o { c.obj o with val := v } }) (th' := { th with prog := rest }) h ht rfl h.pool
-    ?_ ?_ ?_ ?_ ?_ ?_ ?_ ?_ ?_ ?_ ?_ ?_ ?_ ?_ (fun _ hs => hs)
-  · intro x; simp only [(key x).1, Th.refs]
-  · intro x hx; left; simp only [(key x).2.1]; exact hx
-  · intro x hx; simp only [Th.refs] at hx; omega
-  · intro x hx; simp only [(key x).1, (key x).2.1]; exact h.raw t th x ht hx
-  · intro x hx hc; left; simp only [(key x).1, (key x).2.1]; exact ⟨hx, hc⟩
-  · intro x hx; exact Or.inl hx
-  · intro x; simp only [(key x).2.1, (key x).2.2.1, (key x).2.2.2.1]; exact h.acq x
-  · intro x; simp only; rw [aliveN_congr (fun y => (key y).2.1)]
-  · intro k hk; simp only [(key _).2.1, (key _).2.2.1]; exact h.heapFresh k hk
-  · intro k; simp only [(key _).2.2.2.2]; exact h.heapMgr k
-  · intro k; simp only [(key _).2.2.1]; exact h.heapAcq k
-  · intro s i hx; simp only [(key _).2.1, (key _).2.2.2.2] at *; exact h.nodeMgr s i hx
-  · intro s i hx
-    simp only [(key _).2.1, (key _).2.2.2.2] at *
-    by_cases he : Oid.node s i = o
-    · subst he; rw [halive] at hx; cases hx
-    · simp only [setObj, he, if_false]; exact h.fresh s i hx
-  · intro s hs'; exact h.del t th s ht hs'
+theorem aliveN_setObj_alive (f : Oid → Obj) (o : Oid) (v : Obj) (hv : v.alive = (f o).alive) (x : Oid) :
+    aliveN (setObj f o v) x = aliveN f x := by
+  apply aliveN_congr
+  intro y; by_cases hy : y = o
+  · subst hy; simp [hv]
+  · simp [setObj, hy]
 
-
-/-- a step that rewrites exactly one object `o` (and possibly the pool, the heap counter and thread `t`'s record) -/
-theorem inv_obj1 {c : Cfg} {t : Nat} {th th' : Th} {o : Oid} {ob' : Obj} {p' : PoolSt} {nh' : Nat}
+/-- a step that rewrites exactly one object `o` (and possibly the `next` members, the pool, the heap counter and thread
+`t`'s record) -/
+theorem inv_obj1 {c : Cfg} {t : Nat} {th th' : Th} {o : Oid} {ob' : Obj} {p' : PoolSt} {nh' : Nat} {l' : List (Oid × Oid)}
     (h : Inv c) (ht : c.ths[t]? = some th) (hpool : PoolInv p')
-    (href : ∀ x, x ≠ o → th'.refs x = th.refs x)
-    (hcnt : ob'.count + th.refs o = (c.obj o).count + th'.refs o)
+    (href : ∀ x, x ≠ o → th'.refs x + cntL l' x = th.refs x + cntL c.links x)
+    (hcnt : ob'.count + th.refs o + cntL c.links o = (c.obj o).count + th'.refs o + cntL l' o)
     (hkeep : (c.obj o).alive = true → ob'.alive = true ∨ ob'.count = 0)
-    (hnew : th.refs o < th'.refs o → ob'.alive = true)
+    (hnew : th.refs o + cntL c.links o < th'.refs o + cntL l' o → ob'.alive = true)
     (hraw : ∀ x, th'.raw = some x → (x = o ∧ ob'.alive = true ∧ ob'.count = 0) ∨ (x ≠ o ∧ th.raw = some x))
     (hrawO : (c.obj o).alive = true → (c.obj o).count = 0 → (ob'.alive = true ∧ ob'.count = 0) ∨ th.raw = some o)
     (hrawN : th'.raw = some o → th.raw = some o ∨ (c.obj o).alive = false)
@@ -184,20 +187,22 @@ theorem inv_obj1 {c : Cfg} {t : Nat} {th th' : Th} {o : Oid} {ob' : Obj} {p' : P
     (hacq1 : ∀ k, o = .heap k → ob'.acq ≤ 1)
     (hnm : ∀ s i, o = .node s i → ob'.alive = true → ob'.mgr = true)
     (hfr : ∀ s i, o = .node s i → ob'.alive = false → ob'.val = 0 ∧ ob'.mgr = false)
-    (hdel : ∀ s, Act.delSlab s ∈ th'.todo → Act.delSlab s ∈ th.todo ∨ (s.inUse = 0 ∧ Unlisted p' s.id))
-    (hmono : ∀ sid, Unlisted c.pool sid → Unlisted p' sid) :
-    Inv { c with obj := setObj c.obj o ob', pool := p', nextHeap := nh', ths := c.ths.set t th' } := by
-  refine inv_update (c1 := { c with obj := setObj c.obj o ob', pool := p', nextHeap := nh' }) (th' := th') h ht rfl hpool
-    ?_ ?_ ?_ ?_ ?_ ?_ ?_ hout ?_ ?_ ?_ ?_ ?_ ?_ hmono
+    (hsub : ∀ x, Special x → x ∈ th'.todo → x ∈ th.todo ∨ ∃ s, x = .delSlab s ∧ s.inUse = 0 ∧ Unlisted p' s.id)
+    (hmono : ∀ sid, Unlisted c.pool sid → Unlisted p' sid)
+    (hlnd : (l'.map (·.1)).Nodup)
+    (hla : ∀ x n, (x, n) ∈ l' → (x = o → ob'.alive = true) ∧ (x ≠ o → (x, n) ∈ c.links ∨ (c.obj x).alive = true)) :
+    Inv { c with obj := setObj c.obj o ob', links := l', pool := p', nextHeap := nh', ths := c.ths.set t th' } := by
+  refine inv_update (c1 := { c with obj := setObj c.obj o ob', links := l', pool := p', nextHeap := nh' }) (th' := th') h ht rfl hpool
+    ?_ ?_ ?_ ?_ ?_ ?_ ?_ hout ?_ ?_ ?_ ?_ ?_ ?_ hmono hlnd ?_ ?_
   · intro x; by_cases hx : x = o
     · subst hx; simp only [setObj_same]; omega
-    · simp only [setObj, hx, if_false, href x hx]
+    · have := href x hx; simp only [setObj, hx, if_false]; omega
   · intro x hx; by_cases hxo : x = o
     · subst hxo; simp only [setObj_same]; exact hkeep hx
     · left; simp only [setObj, hxo, if_false]; exact hx
   · intro x hx; by_cases hxo : x = o
     · subst hxo; simp only [setObj_same]; exact hnew (by simp only at hx; omega)
-    · simp only [href x hxo] at hx; omega
+    · have := href x hxo; simp only at hx; omega
   · intro x hx
     rcases hraw x hx with ⟨rfl, h1, h2⟩ | ⟨hne, h1⟩
     · simp only [setObj_same]; exact ⟨h1, h2⟩
@@ -229,60 +234,21 @@ theorem inv_obj1 {c : Cfg} {t : Nat} {th th' : Th} {o : Oid} {ob' : Obj} {p' : P
     · subst hxo; simp only [setObj_same]; exact hfr s i rfl
     · simp only [setObj, hxo, if_false]; exact h.fresh s i
   · intro s hs
-    rcases hdel s hs with h1 | h1
+    rcases hsub (.delSlab s) trivial hs with h1 | ⟨s', he, h1⟩
     · have ⟨h2, h3⟩ := h.del t th s ht h1; exact ⟨h2, hmono _ h3⟩
-    · exact h1
-
-
-theorem aliveN_setObj_alive (f : Oid → Obj) (o : Oid) (v : Obj) (hv : v.alive = (f o).alive) (x : Oid) :
-    aliveN (setObj f o v) x = aliveN f x := by
-  apply aliveN_congr
-  intro y; by_cases hy : y = o
-  · subst hy; simp [hv]
-  · simp [setObj, hy]
-
-/-- one more reference to a live object `o`: the count goes up by one -/
-theorem inv_inc {c : Cfg} {t : Nat} {th th' : Th} {o : Oid} (h : Inv c) (ht : c.ths[t]? = some th)
-    (halive : (c.obj o).alive = true)
-    (hr : ∀ x, th'.refs x = th.refs x + (if x = o then 1 else 0))
-    (hraws : (th'.raw = th.raw ∧ 0 < (c.obj o).count) ∨ (th.raw = some o ∧ th'.raw = none))
-    (hrel : ∀ x, cntRel th'.todo x = cntRel th.todo x)
-    (hdel : ∀ s, Act.delSlab s ∈ th'.todo → Act.delSlab s ∈ th.todo) :
-    Inv { c with obj := setObj c.obj o { c.obj o with count := (c.obj o).count + 1 }, ths := c.ths.set t th' } := by
-  have := inv_obj1 (o := o) (ob' := { c.obj o with count := (c.obj o).count + 1 }) (p' := c.pool) (nh' := c.nextHeap) (th' := th') h ht h.pool
-    (by intro x hx; simp [hr x, hx])
-    (by have := hr o; simp at this; simp only; omega)
-    (fun _ => Or.inl halive)
-    (fun _ => halive)
-    (by
-      intro x hx
-      rcases hraws with ⟨h1, h2⟩ | ⟨h1, h2⟩
-      · rw [h1] at hx
-        by_cases hxo : x = o
-        · subst hxo; have := (h.raw t th x ht hx).2; omega
-        · exact Or.inr ⟨hxo, hx⟩
-      · rw [h2] at hx; cases hx)
-    (by
-      intro _ hc
-      rcases hraws with ⟨_, h2⟩ | ⟨h1, _⟩
-      · omega
-      · exact Or.inr h1)
-    (by
-      intro hx
-      rcases hraws with ⟨h1, _⟩ | ⟨_, h2⟩
-      · rw [h1] at hx; exact Or.inl hx
-      · rw [h2] at hx; cases hx)
-    (by simp only; exact h.acq o)
-    (by intro x; rw [aliveN_setObj_alive c.obj o { c.obj o with count := (c.obj o).count + 1 } rfl, hrel x])
-    (by
-      intro k hk; refine ⟨hk, ?_⟩
-      intro he; subst he; have := (h.heapFresh k hk).1; rw [halive] at this; cases this)
-    (by intro k hk; subst hk; simp only; exact h.heapMgr k)
-    (by intro k hk; subst hk; simp only; exact h.heapAcq k)
-    (by intro s i hk _; subst hk; simp only; exact h.nodeMgr s i halive)
-    (by intro s i hk ha; subst hk; simp only at ha; rw [halive] at ha; cases ha)
-    (fun s hs => Or.inl (hdel s hs))
-    (fun _ hs => hs)
-  exact this
+    · cases he; exact h1
+  · intro x n hm
+    simp only at hm ⊢
+    have ⟨h1, h2⟩ := hla x n hm
+    by_cases hxo : x = o
+    · subst hxo; simp only [setObj_same]; exact h1 rfl
+    · simp only [setObj, hxo, if_false]
+      rcases h2 hxo with h3 | h3
+      · exact h.linkAlive x n h3
+      · exact h3
+  · intro a n hm
+    rcases hsub (.incOld a n) trivial hm with h1 | ⟨s', he, _⟩
+    · exact h.noOld t th a n ht h1
+    · cases he
 
 end Muscle.Conc.RC
